@@ -9,7 +9,7 @@
 EXTENDS AmlNs, Json, IOUtils, TraceLib
 CONSTANT Mode
 Trace == ndJsonDeserialize(IOEnv.TRACE)
-FindingIds == {"D1", "D1b", "D2", "D2c", "D3", "D5", "D7", "D8", "D9", "D10", "D11", "D12", "D13"}
+FindingIds == {"D1", "D1b", "D2", "D2c", "D3", "D5", "D7", "D8", "D9", "D10", "D11", "D12", "D13", "D14", "D15"}
 Open == {d \in FindingIds : IOEnv["OPEN_" \o d] = "1"}
 
 VARIABLES l, mismatch
